@@ -210,6 +210,41 @@ func (w *World) verifyFuncMode(fi *FuncInfo, ct *Contract, defaultSafety bool, p
 			}
 		}()
 	}
+	// "nocall f": the function's own statements (nested function literals are units of their own) never call f
+	if ct != nil {
+		for _, ex := range ct.Extra {
+			if ex.Kind != "nocall" {
+				continue
+			}
+			want := strings.TrimSpace(ex.Text)
+			found := token.NoPos
+			var walk func(n ast.Node) bool
+			walk = func(n ast.Node) bool {
+				switch x := n.(type) {
+				case *ast.FuncLit:
+					if x.Body != fi.Decl.Body {
+						return false
+					}
+				case *ast.CallExpr:
+					if calleeName(c.W, fi.Pkg.TypesInfo, x) == want && !found.IsValid() {
+						found = x.Pos()
+					}
+				}
+				return true
+			}
+			ast.Inspect(fi.Decl.Body, walk)
+			label := ex.Label
+			if label == "" {
+				label = want
+			}
+			g := TTrue
+			if found.IsValid() {
+				g = TFalse
+			}
+			st0 := &State{vars: map[types.Object]Value{}, heap: map[string]*Term{}}
+			c.oblige(st0, "nocall", fmt.Sprintf("nocall(%s)", label), found, g, "no direct call of "+want)
+		}
+	}
 	sig := fi.Obj.Type().(*types.Signature)
 	e := c.newEnv(fi.Pkg, sig, fi.Decl.Body, true, fi.Key)
 	e.FI = fi
